@@ -50,7 +50,7 @@ func verifKeys(m map[ID]chan *Response) []string {
 }
 
 func verifID(id ID) string {
-	if id.name != "" {
+	if id.name != "" || id.isName {
 		return "\"" + id.name + "\""
 	}
 	return "#" + itoa(int64(id.number))
